@@ -17,6 +17,7 @@
 #include <util/translation.h>
 #include <wallet/crypter.h>
 
+#include <chrono>
 #include <fstream>
 #include <iostream>
 
@@ -74,6 +75,8 @@ struct History {
     void Run()
     {
         SetMockTime(GENESIS_TIME + 3600);
+        const auto T0 = std::chrono::steady_clock::now();
+        auto lap = [&](const char* what) { if (getenv("VH_W_TIMING")) std::cerr << "TIMING " << what << " " << std::chrono::duration<double>(std::chrono::steady_clock::now() - T0).count() << "\n"; };
         ChainSimOpts o;
         o.immediate_signals = false;
         std::vector<std::string> keep;
@@ -83,6 +86,7 @@ struct History {
         }
         ChainSim sim(o);
         LoadWalletBase(sim, 8);
+        lap("chain");
 
         WalletSimOpts wo;
         wo.on_disk = true;
@@ -99,6 +103,7 @@ struct History {
         if (!wo.generated_seed) for (auto& d : WalletSimFixedDescriptors()) model.AddString(d, /*persistent=*/true);
         model.Refresh(ws.wallet());
         Mark("begin");
+        lap("wallet-created");
 
         auto do_encrypt = [&] {
             Mark("op encrypt");
@@ -131,6 +136,7 @@ struct History {
         if (scenario >= 2) { do_encrypt(); }
         if (scenario == 3 && !wo.generated_seed) { do_unlock(); import_hard(); if (s.boolean()) { ws.wallet().Lock(); locked = true; st.note("lock"); } }
 
+        lap("scenario-set-up");
         std::vector<std::unique_ptr<wallet::ReserveDestination>> reservations;
         auto drop_reservations = [&] {
             for (auto& r : reservations) { r->ReturnDestination(); ++n_returned_reservations; }
@@ -226,6 +232,7 @@ struct History {
         }
         drop_reservations();
         Mark("end");
+        lap("ops-done");
         if (n_reload) st.cls("restart");
         if (n_after_reload) st.cls("address-after-restart");
         if (encrypted) st.cls("encrypted");
